@@ -8,6 +8,35 @@ HERE = os.path.dirname(os.path.dirname(os.path.abspath(__file__)))
 
 # pid -> (category, technique, level text, level note, design ref)
 CHECKS = {
+    "C01": (
+        "exploration",
+        "Hypothesis: generated rail sets/orders x accept/reject/rewrite verdict tables x hostile user texts x multi-turn conversations (Colang 1.0 and 2.x) through LLMRails.generate; reference pipeline model over the rail-action trace, the scripted LLM's prompt log and the reply",
+        "Conversations of 1-4 turns with 1-4 input rails (custom check/rewrite rails and the shipped self check input), with/without dialog rails, rail exceptions "
+        "on/off, sync and async API, are run through the public LLMRails API with marker-carrying texts; a reference model requires: rails called in configured order on the text "
+        "as rewritten so far and before any dialog/generation step; after a reject no later rail, no generation LLM call, no dialog action, reply = that rail's refusal/exception; "
+        "(1.0) after a rewrite no prompt of this or any later turn contains the original marker.",
+        "Fake embedding provider and prompt-classifying scripted LLM (vf/fakes.py); every violation is re-confirmed on a fresh LLMRails instance; v2 rails are check-only "
+        "(the statement restricts rewriting to 1.0); turns that exceed the v1 100-event limit are skipped and counted.",
+        "DESIGN.md 4/C01",
+    ),
+    "C02": (
+        "exploration",
+        "Hypothesis: generated output-rail sets x verdict sequences x conversations of 2-5 turns where any turn may be blocked/rewritten, predefined and LLM messages alternating (Colang 1.0 and 2.x); reference model + history invariant (turn t is checked like turn 0)",
+        "Every LLM-originated text (tracked by lineage markers) that reaches a reply must have passed all configured output rails in order, never after a reject, only in its final "
+        "rewritten form; a rejected turn's reply carries the refusal or OutputRailException; no LLM text of another turn resurfaces; the rail-call trace of turn t depends only on "
+        "turn t's verdicts, whatever happened in earlier turns.",
+        "Same harness and fresh-instance confirmation as C01; messages produced by the rails themselves and predefined messages are exempt; failing rails are C03's domain.",
+        "DESIGN.md 4/C02",
+    ),
+    "C16": (
+        "exploration",
+        "exhaustive enumeration of the option-subset x spelling x verdict-vector table (768 rows) + Hypothesis-sampled texts; reference decision table over rail-action trace, LLM call count, reply and GenerationResponse.log",
+        "All 16 subsets of {input, dialog, retrieval, output} in list and dict spelling x every effective verdict vector are enumerated completely; for each row no rail of an "
+        "unselected category may run, selected input rails run in order until the first reject, rails-only modes make 0 LLM calls and return exactly user text / rewritten text / "
+        "supplied bot message / refusal, and log.activated_rails lists exactly the rails that ran with stop on exactly the blocking rail.",
+        "Colang 1.0 only (as the property says); per-rail name lists in options are documented as unsupported and not generated; retrieval rails during refusal generation are not asserted.",
+        "DESIGN.md 4/C16",
+    ),
     "C19": (
         "exploration",
         "Hypothesis: generated batching/caching configurations x request schedules (arrival offsets, model latencies) on a virtual-time asyncio loop; oracle = each result equals the fake model's own vector, order preserved, no deadlock; enumerated burst grid",
